@@ -263,7 +263,7 @@ def run(ctx):
                                             "harness/C04/rcu_harness.h, harness/C05/main.cpp (AtomicBuf wrapper: one scheduling point per buffer operation), harness/C05/explore.cpp"],
                       ["sequential consistency: memory_order arguments and fences are not modelled",
                        "the buffer is an abstract bounded FIFO with atomic push/pop/size (its linearizability is property C07); the step correspondence runs the real Vyukov queue atomically inside each buffer operation",
-                       "general_threaded, signal_buffered: no model, no theorem - exploration of the real code with real threads and the monitors only",
+                       "general_threaded, signal_buffered: Coq models (LV.Model.RcuThreaded, LV.Model.RcuSignal) with atomic hand-offs / atomic signal delivery as stated modelling assumptions; NO step correspondence for them (they cannot run under the baton scheduler) - their tie to the code is reading plus the real-thread exploration with the monitors",
                        "Destruct disposes without a grace period: the grace-period theorem does not cover disposals at Destruct (they are counted, C05), the client must have no reader inside",
                        "m_nCurEpoch (uint64_t) is an unbounded integer in the model",
                        "client contract as in C04"])
